@@ -46,6 +46,7 @@ def run_case(c):
     kept_args = []     # (array the caller passed in, copy at call time, description): must never change later either
     last_inverse = None
     workbuf = None
+    bbuf = None
     cnt = {"image": 0, "inverse": 0, "preimages": 0, "setbounds": 0}
 
     def fresh():
@@ -142,13 +143,27 @@ def run_case(c):
             last_inverse = None
             a_lo = np.array(lo, dtype=float) if rng.random() < 0.5 else lo
             a_hi = np.array(hi, dtype=float) if rng.random() < 0.5 else hi
+            if rng.random() < 0.4:
+                # the caller keeps two bound buffers (arrays or lists), refills them in place and hands the same objects over again
+                if bbuf is None:
+                    bbuf = (np.zeros(N), np.zeros(N)) if rng.random() < 0.5 else ([0.0] * N, [0.0] * N)
+                    if rng.random() < 0.5:
+                        # the object was constructed from these very buffers
+                        bbuf[0][:] = [float(v) for v in ev.lowerBoundOfFloatVariables]
+                        bbuf[1][:] = [float(v) for v in ev.upperBoundOfFloatVariables]
+                        ev = Evolvent(bbuf[0], bbuf[1], N, m)
+                        obs["constructed_from_reused_buffers"] = obs.get("constructed_from_reused_buffers", 0) + 1
+                bbuf[0][:] = [float(v) for v in lo]
+                bbuf[1][:] = [float(v) for v in hi]
+                a_lo, a_hi = bbuf
+                obs["setbounds_with_reused_objects"] = obs.get("setbounds_with_reused_objects", 0) + 1
             s_lo, s_hi = np.array(a_lo, copy=True), np.array(a_hi, copy=True)
             ev.SetBounds(a_lo, a_hi)
             cnt["setbounds"] += 1
             if not same(a_lo, s_lo) or not same(a_hi, s_hi):
                 viol.append({"mech": "argument-modified", "op": k, "what": "SetBounds"})
             for a, what in ((a_lo, "lower"), (a_hi, "upper")):
-                if isinstance(a, np.ndarray):
+                if isinstance(a, np.ndarray) and (bbuf is None or (a is not bbuf[0] and a is not bbuf[1])):
                     kept_args.append((a, np.array(a, copy=True), "SetBounds %s argument at op %d" % (what, k)))
             obs["box_" + kind] = obs.get("box_" + kind, 0) + 1
         # arrays returned earlier must not change
@@ -176,7 +191,7 @@ def run_case(c):
 
 
 def finalize(obs, tier, stats):
-    for k in ("ops_image", "ops_inverse", "ops_preimages", "ops_setbounds", "integer_typed_args", "roundtrip_args", "image_of_previous_inverse", "box_special", "box_unit", "box_far", "kept_argument_arrays_rechecked", "work_buffer_args"):
+    for k in ("ops_image", "ops_inverse", "ops_preimages", "ops_setbounds", "integer_typed_args", "roundtrip_args", "image_of_previous_inverse", "box_special", "box_unit", "box_far", "kept_argument_arrays_rechecked", "work_buffer_args", "setbounds_with_reused_objects", "constructed_from_reused_buffers"):
         if not obs.get(k):
             return "operation class %s never exercised" % k, {}
     return None, {}
